@@ -5,6 +5,7 @@ Engine tier: checks/c11_engine.py (UpFault.tla fault scripts played by scripted 
              pipeline on real UDP+TCP sockets).
 Deadline   : checks/x11dl.py (LazyDeadline.tla / InterruptGroup.tla: forced schedules, concurrent histories, fan-out).
 """
+import c10
 import c11_core
 import c11_engine
 import x11dl
@@ -24,6 +25,14 @@ def run(ctx, replay):
         return
     c11_core.run_core(ctx)
     c11_engine.run_engine(ctx)
+    # "exactly one reply, never two" at the engine: the UDP job walk under load with packets that stage a reply AND
+    # ask for a handoff, panic, or stay silent; the recorded walk is judged by Trace_UdpJob.tla (AtMostOneSend,
+    # ReleaseOnce) -- one engine shape here, all of them in C10
+    c10.require_hook()
+    ctx.overlay_tags.add("c10")
+    _fresh_overlay(ctx)
+    ctx.tlc("UdpJob", "MC_UdpJob.tla", "MC_batch.cfg", workers=4, timeout=900, heap="6g")
+    c10.engines(ctx, "[C11, engine walk] ", only=["batch-w1"], secure=False)
     # the request deadline and the straggler interruption behind "in time": LazyDeadline.tla / InterruptGroup.tla
     ctx.overlay_tags.add("x11dl")
     _fresh_overlay(ctx)
